@@ -2836,7 +2836,9 @@ def prime_factors(lhs, ctx):
         (NUMBER_TYPE): lambda: deep_flatten(
             [
                 [key] * value
-                for key, value in sympy.ntheory.factorint(int(lhs)).items()
+                for key, value in sorted(
+                    sympy.ntheory.factorint(int(lhs)).items()
+                )
             ],
             ctx=ctx,
         ),
